@@ -161,7 +161,7 @@ def _native(n, m, M, gf, p, values, tscale):
 
 
 def _witness(eng, acc, n, m, M, gf, p, anoms, vals, cap=40):
-    if acc.c.get("witness_tried", 0) >= cap:
+    if acc.total("witness_tried") >= cap:
         return
     acc.inc("witness_tried")
     model, _ = robust_model(eng)
